@@ -53,11 +53,10 @@ Fixpoint lincomb (c : list Z) (vs : list (list Z)) (zero : list Z) : list Z :=
 Fixpoint map2 {A B C} (f : A -> B -> C) (a : list A) (b : list B) : list C :=
   match a, b with x :: r, y :: s => f x y :: map2 f r s | _, _ => [] end.
 
-Fixpoint dedupb {A} (eqb : A -> A -> bool) (l : list A) : list A :=
-  match l with
-  | [] => []
-  | x :: r => if existsb (eqb x) r then dedupb eqb r else x :: dedupb eqb r
-  end.
+(* `if x not in acc: acc.append(x)` (kept in reverse order; the order is never observed) *)
+Definition add_new {A} (eqb : A -> A -> bool) (acc : list A) (x : A) : list A :=
+  if existsb (eqb x) acc then acc else x :: acc.
+Definition dedupb {A} (eqb : A -> A -> bool) (l : list A) : list A := fold_left (add_new eqb) l [].
 
 Fixpoint allpairs {A} (l : list A) : list (A * A) :=
   match l with [] => [] | x :: r => map (pair x) r ++ allpairs r end.
@@ -319,3 +318,12 @@ Definition eq_result (a b : result) : bool :=
   end.
 
 Definition check_case (c : case * result) : bool := eq_result (run (fst c)) (snd c).
+
+(* typed constructors used by the generated case files (they make elaboration of the big literals fast) *)
+Definition CR (c : case) (r : result) : case * result := (c, r).
+Definition RS (n : Z) (e : list edge) (t : list term) : result := Some (n, e, t).
+Definition ED (a b t : Z) : edge := (a, b, t).
+Definition TM (c : Q) (w : word) : term := (c, w).
+Definition SL (i : Z) (l : letter) : Z * letter := (i, l).
+Definition CE (a b : Z) (o : eop) (c : Q) : Z * Z * eop * Q := (a, b, o, c).
+Definition ND (v : Z) (l : letter) (c : Q) : Z * letter * Q := (v, l, c).
